@@ -37,6 +37,12 @@ Theorem C04_limits_agree :
   c_max_entity_size = 8%N /\ py_max_braces = c_max_braces.
 Proof. vm_compute. repeat split; reflexivity. Qed.
 
+(* the only character-class tests of the C sources are the Unicode ones (an ASCII-only ctype test such as
+   Py_ISSPACE / isspace answers differently from str.isspace beyond U+007F and masks its argument) *)
+Theorem C04_char_classes_are_unicode :
+  forallb (fun s => existsb (String.eqb s) ["Py_UNICODE_ISSPACE"; "Py_UNICODE_ISALNUM"]) c_char_class_calls = true.
+Proof. vm_compute. reflexivity. Qed.
+
 Theorem C04_definitions_agree :
   strings_eqb py_uri_schemes c_uri_schemes = true /\
   strings_eqb py_uri_schemes_authority_optional c_uri_schemes_authority_optional = true /\
@@ -72,6 +78,7 @@ Proof.
   repeat split; apply in_table_equiv; vm_compute; reflexivity.
 Qed.
 
+Print Assumptions C04_char_classes_are_unicode.
 Print Assumptions C04_contexts_agree.
 Print Assumptions C04_tag_contexts_agree.
 Print Assumptions C04_contexts_well_formed.
